@@ -129,7 +129,7 @@ def history_lemmas(pid, src, optimize=True, K=None, timeout_ms=60000, bool_input
         if type(st).__name__ == "DeclStmt" and type(st.value).__name__ == "ReadExpr":
             readers[st.name] = st.value.memory_name
     if not readers:
-        return [{"name": f"template:{pid}", "status": "undecided", "detail": "no reader `Signal o = m.read();`", "backend": "", "ms": 0}]
+        return [{"name": f"template:{pid}", "status": "not-templated", "detail": "no top-level reader `Signal o = m.read();`", "backend": "", "ms": 0}]
 
     def expected_next(iv, cells_now):
         sem = M.s3(iv, cells_now)
